@@ -397,7 +397,9 @@ func init() {
 
 var dirNames = []string{"a", "b", "pkg", "views", "vendor", "node_modules", ".git", ".hidden", "_skip", "_", "vendor2", "x_", "a.b", "Vendor", "node_modules_x", "templ",
 	// names that contain, without ending in, the suffixes the generator maps between
-	"site_templ.go.old", "x.templ.d", "v_templ.go_bak", "site_templ.go.old"}
+	"site_templ.go.old", "x.templ.d", "v_templ.go_bak", "site_templ.go.old",
+	// characters that are legal in file names and special to patterns, shells or line-based tools
+	"two\nlines", "sp ace", "tab\there", "semi;colon", "quote'", "pct%20", "dollar$HOME", "[brackets]", "star*", "+plus", "caret^", "(paren)", "pipe|", "back\\slash", "é✓"}
 
 func validTempl(pkg string, n int, variant int) string {
 	switch variant % 5 {
